@@ -69,7 +69,7 @@ def facts(src, strip_comments, fn_body):
     fns = impl_fns(text)
     res = {"errors": errors, "fns": [], "sweeperRechecks": False, "sweeperCollectsFromIndex": False,
            "centralLazy": False, "expiredIsStrict": False, "ttlComparesStrict": False,
-           "ttlArms": [], "ttlLastMsFixed": False, "pttlFloorsMillis": False, "snapshotReadsThroughGet": False}
+           "ttlArms": [], "ttlLastMsFixed": False, "zsetOneCall": False, "pttlFloorsMillis": False, "snapshotReadsThroughGet": False}
     if not fns:
         errors.append("impl StorageEngine not found in storage/engine.rs")
         return res
@@ -178,6 +178,21 @@ def facts(src, strip_comments, fn_body):
     res["ttlLastMsFixed"] = bool(arms) and bool(re.match(r"duration\.(is_zero\(\)|as_nanos\(\) == 0) =>", arms[0]))
     if len(arms) != 4:
         errors.append("handle_ttl arithmetic (if-chain on Some(duration)) not recognised")
+    # multi-member sorted-set writes: one storage call per command (zadd_many / zrem_many / zpop), or one per member?
+    exe = strip_comments(src("storage/commands/executor.rs"))
+    hz = {n: fn_body(srv, n) or "" for n in ("handle_zadd", "handle_zrem", "handle_zpopmin", "handle_zpopmax")}
+    ex = fn_body(exe, "execute_sorted_set") or ""
+    one = ("storage.zadd_many(" in hz["handle_zadd"] and "storage.zrem_many(" in hz["handle_zrem"] and
+           "storage.zpop(" in hz["handle_zpopmin"] and "storage.zpop(" in hz["handle_zpopmax"] and
+           not any(re.search(r"storage\.(zadd|zrem)\(", b) for b in hz.values()) and
+           "storage.zadd_many(" in ex and "storage.zrem_many(" in ex and "storage.zpop(" in ex and
+           not re.search(r"storage\.(zadd|zrem)\(", ex))
+    per = (re.search(r"storage\.zadd\(", hz["handle_zadd"]) and re.search(r"storage\.zrem\(", hz["handle_zrem"]) and
+           re.search(r"storage\.zrem\(", hz["handle_zpopmin"]) and re.search(r"storage\.zrem\(", hz["handle_zpopmax"]) and
+           "zadd_many(" not in hz["handle_zadd"] + ex)
+    res["zsetOneCall"] = bool(one)
+    if not one and not per:
+        errors.append("sorted-set write handlers (handle_zadd/zrem/zpopmin/zpopmax, execute_sorted_set) are neither all per-member loops nor all single storage calls")
     # rdb.rs: the snapshot reads every value through `get` (lazily checked)
     rdb = strip_comments(src("storage/rdb.rs"))
     reads = re.findall(r"storage\.(get|get_with_ttl)\(\s*db\w*\s*,\s*&key\s*\)", rdb)
@@ -202,7 +217,7 @@ def derived(f):
         "setValueDropsStale": g("set_value", "removesIndex"),
         "setNxDropsStale": g("set_string_nx", "removesIndex"),
         "renameMovesIndex": g("rename", "writesIndex") and g("rename", "removesIndex"),
-        "emptiedDropsIndex": all(g(n, "removesIndex") for n in SHRINK_FNS),
+        "emptiedDropsIndex": all(g(n, "removesIndex") for n in SHRINK_FNS + [n for n in ("zrem_many", "zpop") if n in by]),
     }
 
 
@@ -253,6 +268,9 @@ def generate(src, strip_comments, fn_body, header):
     L.append("def ttlArms : List String := %s" % lean_strs(f["ttlArms"]))
     L.append("/-- the first arm of that chain answers -2 only for a ZERO duration (repair of the last-millisecond -2) -/")
     L.append("def ttlLastMsFixed : Bool := %s" % lean_bool(f["ttlLastMsFixed"]))
+    L.append("/-- ZADD / ZREM / ZPOPMIN / ZPOPMAX (server handlers and script executor) make ONE storage call per command")
+    L.append("    (`zadd_many`, `zrem_many`, `zpop`): the deadline is tested once per command, not once per member -/")
+    L.append("def zsetOneCall : Bool := %s" % lean_bool(f["zsetOneCall"]))
     L.append("/-- `pttl` is `duration.as_millis() as i64` -/")
     L.append("def pttlFloorsMillis : Bool := %s" % lean_bool(f["pttlFloorsMillis"]))
     L.append("/-- the RDB writer reads every value through `storage.get` / `storage.get_with_ttl`, both lazily checked -/")
